@@ -160,20 +160,18 @@ func (t *Timer) Reset(d Duration) bool {
 	*t.stopped = true // the pending firing, if any, is cancelled
 	stopped := new(bool)
 	t.stopped = stopped
-	if s := sched.Cur; s != nil && !s.Aborted() {
-		c, f := t.C, t.f
-		s.AddTimer(int64(d), func() {
-			if *stopped {
-				return
-			}
-			*stopped = true
-			if f != nil {
-				sched.GoFromTimer(f)
-			} else {
-				c.TrySendFromTimer(time.Unix(0, Epoch+s.NowNs).UTC())
-			}
-		})
-	}
+	c, f := t.C, t.f
+	sched.AddTimerAnywhere(int64(d), func(s *sched.Sim) {
+		if *stopped {
+			return
+		}
+		*stopped = true
+		if f != nil {
+			sched.GoFromTimer(f)
+		} else {
+			c.TrySendFromTimer(time.Unix(0, Epoch+s.NowNs).UTC())
+		}
+	})
 	return was
 }
 
@@ -181,14 +179,12 @@ func (t *Timer) Reset(d Duration) bool {
 func NewTimer(d Duration) *Timer {
 	c := vchan.Make[Time](1)
 	stopped := new(bool)
-	if s := sched.Cur; s != nil && !s.Aborted() {
-		s.AddTimer(int64(d), func() {
-			if !*stopped {
-				*stopped = true
-				c.TrySendFromTimer(time.Unix(0, Epoch+s.NowNs).UTC())
-			}
-		})
-	}
+	sched.AddTimerAnywhere(int64(d), func(s *sched.Sim) {
+		if !*stopped {
+			*stopped = true
+			c.TrySendFromTimer(time.Unix(0, Epoch+s.NowNs).UTC())
+		}
+	})
 	return &Timer{C: c, stopped: stopped}
 }
 
@@ -217,11 +213,7 @@ func NewTicker(d Duration) *Ticker {
 }
 
 func (t *Ticker) arm() {
-	s := sched.Cur
-	if s == nil || s.Aborted() {
-		return
-	}
-	s.AddTimer(t.d, func() {
+	sched.AddTimerAnywhere(t.d, func(s *sched.Sim) {
 		if *t.stopped {
 			return
 		}
@@ -247,14 +239,12 @@ func Tick(d Duration) *vchan.Chan[Time] {
 // AfterFunc runs f on its own simulated goroutine after d.
 func AfterFunc(d Duration, f func()) *Timer {
 	stopped := new(bool)
-	if s := sched.Cur; s != nil && !s.Aborted() {
-		s.AddTimer(int64(d), func() {
-			if !*stopped {
-				*stopped = true
-				sched.GoFromTimer(f)
-			}
-		})
-	}
+	sched.AddTimerAnywhere(int64(d), func(s *sched.Sim) {
+		if !*stopped {
+			*stopped = true
+			sched.GoFromTimer(f)
+		}
+	})
 	return &Timer{C: nil, stopped: stopped, f: f}
 }
 
